@@ -184,6 +184,28 @@ pub fn mutant(v: &V, t: &mut Tape) -> V {
     }
 }
 
+/// operands written in source, with the items each contributes to a concatenation (a list its items, anything else itself)
+pub const WRITTEN_OPERANDS: &[(&str, &[&str])] = &[
+    ("(,)", &[]),
+    ("5", &["5"]),
+    ("( 5 , )", &["5"]),
+    ("( 1 2 )", &["1", "2"]),
+    ("\"a\"", &["\"a\""]),
+    ("( :a = 1 )", &["( :a = 1 )"]),
+    ("( ( 7 8 ) , )", &["( 7 8 )"]),
+    ("()", &["()"]),
+];
+
+/// the flat list of the operands' items, spelled as a comma list (a one-item list needs its trailing comma, the empty list is `(,)`)
+pub fn spelled_flat(operands: &[&(&str, &[&str])]) -> String {
+    let items: Vec<&str> = operands.iter().flat_map(|o| o.1.iter().copied()).collect();
+    match items.len() {
+        0 => "(,)".to_string(),
+        1 => format!("( {} , )", items[0]),
+        _ => format!("( {} )", items.join(" , ")),
+    }
+}
+
 pub fn small_pool() -> Vec<V> {
     let l = |v: Vec<V>| V::List(v);
     vec![
@@ -346,7 +368,7 @@ impl Check for C11Check {
              phase random: value trees (depth <= 3, width <= 4) from a proptest tape, each paired with a twin (same value built differently: int/float, char/text, list/concatenation split at a random point, different addresses), a near-miss mutant (one leaf changed, an item dropped or added at the end, mismatch after a long equal prefix) and an independent tree; transitivity on (tree, twin, twin-of-twin). \
              Each pair is compared in both orders with the Equal and NotEqual instructions called directly on operands placed above two sentinel registers, and through the compiled program `$ . 0 == $ . 1`, on both data implementations. \
              Oracle: result = structural identity of canonical forms (numbers numerically, char = 1-char text, byte = 1-byte list, lists and concatenations as flat item sequences); symmetric; `!=` is the negation; exactly one register above the intact sentinels afterwards. \
-             Non-trivial = an operand nested at depth >= 2; distinct = distinct ordered value pairs.",
+             Phase written-concatenations: two or three operands written in a program (empty list, number, one-item list, list, text, pair, list holding a list, unit) joined by `<>` in both nestings and compared with the flat list of their items by `==` and `!=`, on both implementations (this exercises the concatenation instruction, the other phases build values through the data interface). Non-trivial = an operand nested at depth >= 2; distinct = distinct ordered value pairs.",
             small_pool().len()
         )
     }
@@ -358,6 +380,7 @@ impl Check for C11Check {
         vec![
             Phase::exhaustive("pool-pairs", n * n).with_chunk(64),
             Phase::random("random-trees", tier.pick(200_000, 2_000_000), 120).with_min_tape(24).with_chunk(512),
+            Phase::exhaustive("written-concatenations", (WRITTEN_OPERANDS.len() as u64).pow(3) * 2 + (WRITTEN_OPERANDS.len() as u64).pow(2)).with_chunk(64),
             Phase::exhaustive("size-sweep", (crate::model::pipeline::SIZE_SWEEP.iter().filter(|n| **n <= tier.pick(129, 1000)).count() * 6 * 6) as u64).with_chunk(2).with_deadline_ms(30_000),
         ]
     }
@@ -369,6 +392,39 @@ impl Check for C11Check {
                 self.judge_pair(&p[(*i / n) as usize], &p[(*i % n) as usize], ctx);
             }
             (2, Input::Index(i)) => {
+                // concatenations written in a program (the `<>` instruction itself, not the data interface): two or three
+                // operands in both nestings compared with the flat list of their items
+                let n = WRITTEN_OPERANDS.len() as u64;
+                let (text, expected_true) = if *i < n * n {
+                    let (a, b) = (&WRITTEN_OPERANDS[(*i / n) as usize], &WRITTEN_OPERANDS[(*i % n) as usize]);
+                    let flat = spelled_flat(&[a, b]);
+                    (format!("( {} <> {} ) == {}", a.0, b.0, flat), true)
+                } else {
+                    let j = *i - n * n;
+                    let right_nested = j % 2 == 1;
+                    let r = j / 2;
+                    let (a, b, c) = (&WRITTEN_OPERANDS[(r / (n * n)) as usize], &WRITTEN_OPERANDS[((r / n) % n) as usize], &WRITTEN_OPERANDS[(r % n) as usize]);
+                    let flat = spelled_flat(&[a, b, c]);
+                    if right_nested { (format!("( {} <> ( {} <> {} ) ) == {}", a.0, b.0, c.0, flat), true) } else { (format!("( ( {} <> {} ) <> {} ) == {}", a.0, b.0, c.0, flat), true) }
+                };
+                ctx.render(|| format!("{:?} should be {}", text, expected_true));
+                ctx.class("written-concatenation");
+                ctx.nontrivial(fnv(text.as_bytes()));
+                for imp in Impl::BOTH {
+                    for (program, want) in [(text.clone(), expected_true), (text.replacen("==", "!=", 1), !expected_true)] {
+                        ctx.sub_evals += 1;
+                        match run_real(imp, &program, None, &V::Unit, 4000) {
+                            Got::Value(V::True) if want => {}
+                            Got::Value(V::False) if !want => {}
+                            other => ctx.fail(
+                                format!("written-concatenation:{}", if program.contains("!=") { "not-equal-wrong" } else { "flat-sequence-not-equal" }),
+                                format!("{:?} on {}: expected {} got {:?}", program, imp.name(), want, other),
+                            ),
+                        }
+                    }
+                }
+            }
+            (3, Input::Index(i)) => {
                 // long sequences of every kind: an equal twin, a twin differing in one position (first, middle, last), one shorter, one longer
                 let n = crate::model::pipeline::SIZE_SWEEP[(*i / 36) as usize];
                 let kind = (*i / 6) % 6;
